@@ -31,8 +31,8 @@ impl Property for C19 {
     }
     fn config(&self, tier: Tier) -> PropConfig {
         match tier {
-            Tier::Quick => PropConfig { cases: 60_000, max_tape: 200, shards: 8 },
-            Tier::Thorough => PropConfig { cases: 1_600_000, max_tape: 400, shards: 16 },
+            Tier::Quick => PropConfig { cases: 400000, max_tape: 200, shards: 12 },
+            Tier::Thorough => PropConfig { cases: 6400000, max_tape: 400, shards: 16 },
         }
     }
     fn run_case(&self, reg: &Registry, shape: usize, tape: &[u8], st: &mut Stats) -> CaseResult {
@@ -86,16 +86,29 @@ impl Property for C19 {
                 let ci = (val as usize) % starts.len();
                 let cstart = starts[ci];
                 let clen = s[cstart..].chars().next().unwrap().len_utf8();
-                let (p, x) = match how % 3 {
+                let (p, x) = match how % 4 {
                     // 0xFF anywhere inside the character
                     0 => (cstart + (val as usize >> 8) % clen, 0xffu8),
                     // lone continuation byte at the start of a character
                     1 => (cstart, 0x80u8),
                     // lead byte that lacks its continuation bytes
-                    _ => (cstart, 0xE2u8),
+                    2 => (cstart, 0xE2u8),
+                    // the LAST character gets a lead byte announcing one byte more than the string has left:
+                    // an incomplete sequence at the very end of the contents
+                    _ => {
+                        let ls = *starts.last().unwrap();
+                        let ll = s.len() - ls;
+                        match ll {
+                            1 => (ls, 0xC3u8),
+                            2 => (ls, 0xE2u8),
+                            3 => (ls, 0xF1u8),
+                            _ => (ls, 0xffu8),
+                        }
+                    }
                 };
+                let (cstart, clen) = if how % 4 == 3 { (p, s.len() - p) } else { (cstart, clen) };
                 // "lead without continuation" is only a defect if what follows is not a continuation byte
-                let (p, x) = if x == 0xE2 && clen > 1 { (cstart, 0xffu8) } else { (p, x) };
+                let (p, x) = if how % 4 == 2 && clen > 1 { (cstart, 0xffu8) } else { (p, x) };
                 bytes[f.off + p] = x;
                 (f.off + cstart, f.off + p + 1, "InvalidData", format!("string byte {} := {:#04x}", f.off + p, x))
             }
